@@ -402,6 +402,15 @@ func (ex *executor) run(st *pstate, b *ssa.BasicBlock, from *ssa.BasicBlock) {
 		st.tc.pred = st.pred
 	}
 	tc := st.tc
+	// φ-nodes are evaluated eagerly on entry, so that a later re-entry through a self edge
+	// (`x = φ(…, x)`) finds the value of the previous iteration
+	for _, in := range b.Instrs {
+		phi, ok := in.(*ssa.Phi)
+		if !ok {
+			break
+		}
+		tc.Of(phi)
+	}
 	for _, in := range b.Instrs {
 		switch in := in.(type) {
 		case *ssa.Store:
